@@ -1,6 +1,7 @@
 import PGA.Props.C08
 import PGA.Props.C09
 import PGA.Spec.RingLayout
+import PGA.Proofs.RingLayout
 /-!
 # C08 from the text on — parser model (C09) ∘ bridge ∘ reader model ∘ matcher model
 
@@ -118,7 +119,115 @@ theorem C08_matchText_sound_complete_partial (s : List Char) (m : Mol) (l : List
     subst h
     exact ⟨C08_matches_nodup q m, q, rfl, fun hm hs f => C08_text_matches_iff_partial s q m f hr hm hs⟩
 
-/-! ## Layout (stated, not proved) -/
+/-! ## Layout -/
+
+/-- the filler characters that occur in no token of the grammar: a gap containing one of them cannot lie inside a
+token such as `bond to` -/
+def hardFiller (c : Char) : Bool := c == '\n' || c == '\t'
+
+/-- **Table obligation (layout hypotheses of the shipped grammar)**: `''` is not a filler; the filler characters
+(blank, newline, tab) are neither identifier characters nor decimal digits; every `Literal` / `Filler` / `Literals`
+token of every rule is non-empty, contains neither newline nor tab, has no two adjacent filler characters and does
+not end with one — regenerated from the live `Grammar.py` / `Parser.py` objects on every run. -/
+theorem C08_tab_layout_enhanced : PGA.Ring.LayoutOK enhanced hardFiller :=
+  PGA.Ring.checkLayout_sound _ _ (by decide +kernel)
+
+open PGA.Spec.Layout in
+/-- two gap lists for the same tokens that differ only where it is provably harmless: between two tokens the gaps
+are equal, or both *opaque* (all filler, and at least two characters long or containing a newline or tab); after
+the last token both are any filler -/
+def GapsAlike : List (List Char) → List (List Char) → List (List Char) → Prop
+  | [], [], [] => True
+  | [_], [g], [g'] => PGA.Ring.allFil enhanced g ∧ PGA.Ring.allFil enhanced g'
+  | _ :: t2 :: ts, g :: gs, g' :: gs' =>
+    (g = g' ∨ (PGA.Ring.Opaque enhanced hardFiller g ∧ PGA.Ring.Opaque enhanced hardFiller g')) ∧
+      GapsAlike (t2 :: ts) gs gs'
+  | _, _, _ => False
+
+open PGA.Spec.Layout in
+theorem interleave_LG : ∀ (toks : List (List Char)) (gs gs' : List (List Char)), GapsAlike toks gs gs' →
+    PGA.Ring.LG enhanced hardFiller (interleave toks gs) (interleave toks gs')
+  | [], [], [], _ => PGA.Ring.LG.refl _ _ _
+  | [t], [g], [g'], h => by
+    simp only [interleave, List.append_nil]
+    exact PGA.Ring.LG.append_left t (.trail h.1 h.2)
+  | t :: t2 :: ts, g :: gs, g' :: gs', h => by
+    simp only [interleave, List.append_assoc]
+    apply PGA.Ring.LG.append_left t
+    have ih := interleave_LG (t2 :: ts) gs gs' h.2
+    rcases h.1 with rfl | ⟨o1, o2⟩
+    · exact PGA.Ring.LG.append_left g ih
+    · exact .gap o1 o2 ih
+  | [], _ :: _, _, h => by cases h
+  | [], [], _ :: _, h => by cases h
+  | [_], [], _, h => by cases h
+  | [_], [_], [], h => by cases h
+  | [_], [_], _ :: _ :: _, h => by cases h
+  | [_], _ :: _ :: _, _, h => by cases h
+  | _ :: _ :: _, [], _, h => by cases h
+  | _ :: _ :: _, _ :: _, [], h => by cases h
+
+open PGA.Spec.Layout in
+/-- **T3, layout (proved part)**: for **every** token sequence (in particular the token-level rendering of any
+fragment) and any two layouts of it whose leading runs are filler and whose gaps are `GapsAlike` — equal, or both
+opaque (two or more filler characters, or containing a newline or a tab), any filler after the last token — the
+parser model takes the same decisions on the two texts: both are rejected, or both are accepted **with the same
+tree** (hence the same query and the same matches: `C08_same_tree_same_matches`).  Proved by a lock-step simulation
+of the backtracking engine (`PGA.Ring.eval_sim`) for every grammar table meeting the layout hypotheses, instantiated
+on the regenerated grammar (`C08_tab_layout_enhanced`).  What is *not* covered is turning a **single blank** into
+another gap (or gluing): that is unsound inside tokens such as `bond to` and needs the parse∘render argument
+(`C08_layout_irrelevant_full`). -/
+theorem C08_layout_irrelevant_partial (toks : List (List Char)) (L L' : Layout)
+    (hl : PGA.Ring.allFil enhanced L.lead) (hl' : PGA.Ring.allFil enhanced L'.lead)
+    (hg : GapsAlike toks L.gaps L'.gaps) :
+    treeOf (render toks L) = treeOf (render toks L') := by
+  have hlg : PGA.Ring.LG enhanced hardFiller (PGA.Ring.stripF enhanced (render toks L))
+      (PGA.Ring.stripF enhanced (render toks L')) := by
+    unfold render
+    rw [PGA.Ring.stripF_append _ _ _ hl, PGA.Ring.stripF_append _ _ _ hl']
+    exact (interleave_LG toks _ _ hg).strip
+  have hp := PGA.Ring.parse_layout C08_tab_layout_enhanced _ _ hlg
+  unfold treeOf parseText
+  generalize parse enhanced (render toks L) = p1 at hp ⊢
+  generalize parse enhanced (render toks L') = p2 at hp ⊢
+  cases hp <;> rfl
+
+/-- the same for arbitrary texts: related texts are read alike — both are syntax errors (possibly at different
+positions), or the outcomes of `readText` are equal (same query, or the same reader error) -/
+theorem C08_layout_read_partial (s s' : List Char)
+    (h : PGA.Ring.LG enhanced hardFiller (PGA.Ring.stripF enhanced s) (PGA.Ring.stripF enhanced s')) :
+    (∃ l c l' c', readText s = .error (.syntax l c) ∧ readText s' = .error (.syntax l' c')) ∨
+      readText s = readText s' := by
+  have hp := PGA.Ring.parse_layout C08_tab_layout_enhanced _ _ h
+  unfold readText parseText
+  generalize parse enhanced s = p1 at hp ⊢
+  generalize parse enhanced s' = p2 at hp ⊢
+  cases hp with
+  | accepted t fin fin' => exact Or.inr rfl
+  | syntaxError e e' => exact Or.inl ⟨_, _, _, _, rfl, rfl⟩
+  | abort a => exact Or.inr rfl
+
+/-- non-vacuity: a gap of one newline and a gap of tab + blanks are both opaque; a single blank is not -/
+example : PGA.Ring.Opaque enhanced hardFiller ['\n'] ∧ PGA.Ring.Opaque enhanced hardFiller ['\t', ' ', ' '] ∧
+    ¬ PGA.Ring.Opaque enhanced hardFiller [' '] := by
+  refine ⟨⟨by decide +kernel, Or.inr ⟨'\n', by simp, rfl⟩⟩, ⟨by decide +kernel, Or.inl (by simp)⟩, ?_⟩
+  rintro ⟨_, h | ⟨c, hc, hh⟩⟩
+  · simp at h
+  · simp only [List.mem_singleton] at hc; subst hc; simp [hardFiller] at hh
+
+open PGA.Spec.Layout in
+/-- non-vacuity: `fragment a{C labeled c1}` written on one line with double blanks and written over three indented lines -/
+example : GapsAlike [tk "fragment", tk "a", tk "{", tk "C", tk "labeled", tk "c1", tk "}"]
+    [[' ', ' '], [], [' ', ' '], [' '], [' ', ' '], [], []]
+    [['\n'], [], ['\n', ' ', ' '], [' '], ['\t'], [], ['\n']] := by
+  refine ⟨Or.inr ⟨⟨by decide +kernel, Or.inl (by simp)⟩, ⟨by decide +kernel, Or.inr ⟨'\n', by simp, rfl⟩⟩⟩,
+    Or.inl rfl, Or.inr ⟨⟨by decide +kernel, Or.inl (by simp)⟩, ⟨by decide +kernel, Or.inl (by simp)⟩⟩,
+    Or.inl rfl, Or.inr ⟨⟨by decide +kernel, Or.inl (by simp)⟩, ⟨by decide +kernel, Or.inr ⟨'\t', by simp, rfl⟩⟩⟩,
+    Or.inl rfl, by decide +kernel, by decide +kernel⟩
+
+/-! ### the remaining gap (stated, not proved) -/
+
+
 
 open PGA.Spec.Layout in
 /-- **T3, layout, full statement (NOT PROVED — documented gap)**: for every fragment, any two valid
@@ -126,12 +235,12 @@ layouts of its token sequence (a filler run before the first token and after eve
 between two tokens unless one is a brace, a comma, or the first is `!`) are parsed alike by the
 parser model: both rejected, or both accepted with the same tree — hence the same query and the same
 matches on every molecule.  Stated for fragments whose fields are lexically what the grammar expects
-(`lexOK`).  What a proof needs and why it is heavy: a simulation of two runs of the backtracking
-engine in lock-step under a relation on the remaining texts, *plus* the fact that on a rendered
-fragment no literal containing a blank (`any atom`, `bond to`, …) can match across a token boundary —
-a parse∘render argument over the whole fragment grammar.  The claim is exercised instead, on every
-run, by `c08.layouts` (parser model: tree and query of 2–4 further random layouts of every random
-fragment equal those of the first) and by the implementation's parser on the same texts. -/
+(`lexOK`).  Beyond `C08_layout_irrelevant_partial` this asks that a *single blank* between two tokens
+may become any gap (and that gaps next to braces and commas may be closed): that needs the fact that
+on a rendered fragment no literal containing a blank (`any atom`, `bond to`, …) can match across a
+token boundary — a parse∘render argument over the whole fragment grammar.  That part is exercised, on
+every run, by `c08.layouts` (parser model: tree and query of 2–4 further random layouts of every
+random fragment equal those of the first) and by the implementation's parser on the same texts. -/
 def C08_layout_irrelevant_full : Prop :=
   ∀ (f : Frag), lexOK f = true → ∀ (L L' : Layout),
     L.ok (tokens f) = true → L'.ok (tokens f) = true →
